@@ -39,6 +39,14 @@ fn main() {
             let engine = args.get(2).expect("engine");
             let file = args.get(3).expect("file");
             let v: Value = serde_json::from_slice(&std::fs::read(file).expect("read replay")).expect("json");
+            if v["kind"] == "panic" && v["input"].is_string() {
+                // a recorded panic of the stylesheet compiler: replay = transform the recorded input again
+                let opts = css::Opts::from_json(&v["options"]);
+                let run = || css::transform("n.wxss", v["input"].as_str().unwrap(), &opts, 0, false).err().map(|(s, m)| format!("{}: {}", s, m));
+                let (a, b) = (run(), run());
+                println!("{}", serde_json::json!({"deterministic": a == b, "failure": a}));
+                return;
+            }
             let r = match engine.as_str() {
                 "c01" => c01::replay(&v),
                 "c08" => c08::replay(c08::Prop::C08, &v),
